@@ -58,7 +58,7 @@ var goSrcFuncs = []string{
 	"Array.AsFloat", "Array.AsInteger", "Array.AsUint64",
 	"ParsedJson.get_current_loc", "ParsedJson.write_tape", "ParsedJson.writeTapeTagVal", "ParsedJson.writeTapeTagValFlags",
 	"ParsedJson.write_tape_s64", "ParsedJson.write_tape_double", "ParsedJson.annotate_previousloc", "parseString", "addNumber",
-	"min", "max", "fmtF", "appendFloatF", "appendFloat", "Serializer.indexString", "Object.FindKey", "Object.FindPath", "Iter.Object", "Iter.Array", "Iter.Root", "Iter.Root#self", "Iter.FindElement", "Array.AsString", "Array.AsStringCvt", "Object.Parse", "Elements.MarshalJSONBuffer", "ParsedJson.stringAt", "Iter.String", "floatToString", "Iter.StringCvt", "Object.NextElement",
+	"min", "max", "fmtF", "appendFloatF", "appendFloat", "Serializer.indexString", "Object.FindKey", "Object.FindPath", "Iter.Object", "Iter.Array", "Iter.Root", "Iter.Root#self", "Iter.FindElement", "Array.AsString", "Array.AsStringCvt", "Object.Parse", "Elements.MarshalJSONBuffer", "Iter.SetString", "Iter.MarshalJSON", "Array.MarshalJSON", "Elements.MarshalJSON", "Type.String", "Tag.String", "FloatFlags.Contains", "ParsedJson.stringAt", "Iter.String", "floatToString", "Iter.StringCvt", "Object.NextElement",
 }
 
 // functions in which constant expressions are folded (as the compiler does) before printing; the functions translated
@@ -519,6 +519,20 @@ func (t *gsTr) expr(e ast.Expr, want gty) (string, gty) {
 		if at, ok := x.Type.(*ast.ArrayType); ok && at.Len != nil && len(x.Elts) == 0 {
 			if el, ok := at.Elt.(*ast.Ident); ok && (el.Name == "byte" || el.Name == "uint8") {
 				return fmt.Sprintf("(.zerosB %s)", t.p.eval(at.Len, 0).String()), tyBytes
+			}
+		}
+		// []byte{a, b, …}: the bytes listed
+		if at, ok := x.Type.(*ast.ArrayType); ok && at.Len == nil {
+			if el, ok := at.Elt.(*ast.Ident); ok && (el.Name == "byte" || el.Name == "uint8") && len(x.Elts) > 0 {
+				out := ".nilB"
+				for _, el := range x.Elts {
+					b, bty := t.expr(el, tyU8)
+					if bty != tyU8 {
+						gsDie(e, "byte literal element")
+					}
+					out = fmt.Sprintf("(.pushB %s %s)", out, b)
+				}
+				return out, tyBytes
 			}
 		}
 		gsDie(e, "composite literal")
@@ -2875,6 +2889,7 @@ func genGoSrc(p *pkgInfo, out string) {
 		t.iterFieldTypes()
 		t.frees = map[string]gty{}
 		rkind := "Iter"
+		scalarRecv := ""
 		if fd.Recv == nil {
 			rkind = "" // a plain function
 		} else {
@@ -2884,7 +2899,12 @@ func genGoSrc(p *pkgInfo, out string) {
 			var isPtr bool
 			rkind, isPtr = ptrKind(fd.Recv.List[0].Type)
 			byValue := false
-			if !isPtr {
+			if sty := tyOfTypeExpr(fd.Recv.List[0].Type); !isPtr && (sty == tyU8 || sty == tyU64 || sty == tyInt) {
+				// a method of a named scalar type (Tag, Type, FloatFlags): a plain function whose first parameter is the receiver
+				rkind = ""
+				scalarRecv = fd.Recv.List[0].Names[0].Name
+				t.locals[scalarRecv] = sty
+			} else if !isPtr {
 				// a plain struct received by value: the callee works on a copy of the fields (which is what copying them in
 				// means; that they are copied back is harmless as long as the callee does not assign to them: enforced)
 				if k, ok := valKindAny(fd.Recv.List[0].Type); ok {
@@ -2893,8 +2913,10 @@ func genGoSrc(p *pkgInfo, out string) {
 					die("gosrc: %s: receiver must be a pointer to Iter, Object, Array or ParsedJson, or a plain struct by value", fn)
 				}
 			}
-			t.recv = fd.Recv.List[0].Names[0].Name
-			t.kinds[t.recv] = rkind
+			if scalarRecv == "" {
+				t.recv = fd.Recv.List[0].Names[0].Name
+				t.kinds[t.recv] = rkind
+			}
 			if byValue {
 				t.readonly[t.recv] = true
 			}
@@ -2904,6 +2926,9 @@ func genGoSrc(p *pkgInfo, out string) {
 		}
 		var params []string
 		var ptrParams []string
+		if scalarRecv != "" {
+			params = append(params, scalarRecv)
+		}
 		for _, f := range fd.Type.Params.List {
 			for _, nm := range f.Names {
 				if k, ok := valKind(f.Type); ok {
